@@ -13,6 +13,19 @@
 (*                       boundary only)                                        *)
 (*   flip2(i, j)         net with two bits flipped, both within NearW bits of *)
 (*                       the network boundary                                  *)
+(* Misplaced images of the network (position and alignment of the prefix      *)
+(* bytes matter; an implementation that trims or skips zero bytes loses them): *)
+(*   shb(d, f)           all bytes of net moved right (d > 0) or left (d < 0) *)
+(*                       by |d| <= 13 bytes, vacated bytes filled with f      *)
+(*   shn(d, dir)         the same with zero fill, then moved by 4 bits right  *)
+(*                       or left (d = 0: the nibble shift alone, also with a  *)
+(*                       non-zero nibble fill)                                *)
+(*   sht(d)              shb(d, 0) with the last four bytes set to 1.2.3.4    *)
+(*   swap                the leading and the trailing zero bytes of the       *)
+(*                       significant prefix bytes exchanged                   *)
+(* and for IPv4 networks the 16-byte image ::ffff:a.b.c.d of net and last     *)
+(* moved by 1..13 bytes, ::a.b.c.d and ::ffff:0:a.b.c.d.  None of these is    *)
+(* derived from a boundary: the verdict is whatever the documented lists say. *)
 (* IPv6 probes are also emitted with a zone; every IPv4 probe is also emitted *)
 (* as ::ffff:a.b.c.d with and without zone (an IPv6 address: IPv6 lists);     *)
 (* plus the zero Addr.                                                         *)
@@ -28,8 +41,39 @@ FlipBit(b, i) == LET k == (i \div 8) + 1
 Keys == Fns \X Fams
 Near(p, W, d) == {i \in 0..(W - 1) : i >= Bits(p) - d /\ i <= Bits(p) + d - 1}
 
+(* Bytes moved by d positions (d > 0 right, d < 0 left), vacated bytes = f.   *)
+ShiftBytes(b, d, f) == [k \in 1..Len(b) |-> IF k - d >= 1 /\ k - d <= Len(b) THEN b[k - d] ELSE f]
+(* Moved by four bits; f is the nibble shifted in.                            *)
+ShiftNibble(b, right, f) ==
+    IF right THEN [k \in 1..Len(b) |-> (b[k] \div 16) + 16 * (IF k = 1 THEN f ELSE b[k - 1] % 16)]
+    ELSE [k \in 1..Len(b) |-> (b[k] % 16) * 16 + (IF k = Len(b) THEN f ELSE b[k + 1] \div 16)]
+Shifts(n) == {d \in (-13)..13 : d # 0 /\ d > -n /\ d < n}
+ZeroRun(n) == [i \in 1..n |-> 0]
+(* Leading and trailing zero bytes of the significant prefix bytes exchanged. *)
+SwapZeros(p) ==
+    LET net == Net(p)
+        sig == (Bits(p) + 7) \div 8
+        lz  == Cardinality({k \in 1..sig : \A j \in 1..k : net[j] = 0})
+        tz  == Cardinality({k \in 1..sig : \A j \in k..sig : net[j] = 0})
+    IN IF lz = sig THEN net
+       ELSE ZeroRun(tz) \o SubSeq(net, lz + 1, sig - tz) \o ZeroRun(lz) \o SubSeq(net, sig + 1, Len(net))
+ShiftKinds == {"shb", "shn", "sht", "swap"}
+Misplaced(p) ==
+    LET n == Len(Net(p))
+        net == Net(p)
+        R(kind, i, j, b) == [kind |-> kind, i |-> i, j |-> j, b |-> b]
+    IN {R("shb", d + 100, f, ShiftBytes(net, d, f)) : d \in Shifts(n), f \in {0, 165}}
+       \cup {R("shn", d + 100, dir, ShiftNibble(ShiftBytes(net, d, 0), dir = 0, 0)) :
+                 d \in Shifts(n) \cup {0}, dir \in {0, 1}}
+       \cup {R("shn", 100, 2 + dir, ShiftNibble(net, dir = 0, 10)) : dir \in {0, 1}}
+       \cup (IF n = 16
+             THEN {R("sht", d + 100, 0, [ShiftBytes(net, d, 0) EXCEPT ![13] = 1, ![14] = 2, ![15] = 3, ![16] = 4]) :
+                      d \in Shifts(n)}
+             ELSE {})
+       \cup {R("swap", 0, 0, SwapZeros(p))}
+
 (* Raw probes of one network: [kind, i, j, b].                                *)
-Raw(p) ==
+Raw(p) == Misplaced(p) \cup
     LET n == Len(Net(p))
         W == 8 * n
         R(kind, i, j, b) == [kind |-> kind, i |-> i, j |-> j, b |-> b]
@@ -49,11 +93,20 @@ Probe(fn, fam, k, r, form, a) ==
     [stage |-> 2, fn |-> fn, pfam |-> fam, k |-> k, kind |-> r.kind, i |-> r.i, j |-> r.j,
      form |-> form, addr |-> a]
 
+(* Misplaced images are emitted without zone variants.                         *)
+ZonesOf(r) == IF r.kind \in ShiftKinds THEN {""} ELSE Zones
 Forms(fn, fam, k, r) ==
     IF fam = "v4"
     THEN {Probe(fn, fam, k, r, "plain", Addr("v4", r.b, ""))}
-         \cup {Probe(fn, fam, k, r, "4in6", Addr("v6", Map4in6(r.b), z)) : z \in Zones}
-    ELSE {Probe(fn, fam, k, r, "plain", Addr("v6", r.b, z)) : z \in Zones}
+         \cup {Probe(fn, fam, k, r, "4in6", Addr("v6", Map4in6(r.b), z)) : z \in ZonesOf(r)}
+         \cup (IF r.kind \in {"net", "last"}
+               THEN {Probe(fn, fam, k, [r EXCEPT !.i = d + 100], "4in6sh",
+                           Addr("v6", ShiftBytes(Map4in6(r.b), d, 0), "")) : d \in Shifts(16)}
+                    \cup {Probe(fn, fam, k, r, "4compat", Addr("v6", ZeroRun(12) \o r.b, "")),
+                          Probe(fn, fam, k, r, "4translated",
+                                Addr("v6", ZeroRun(8) \o <<255, 255, 0, 0>> \o r.b, ""))}
+               ELSE {})
+    ELSE {Probe(fn, fam, k, r, "plain", Addr("v6", r.b, z)) : z \in ZonesOf(r)}
 
 ZeroProbe == [stage |-> 2, fn |-> "local", pfam |-> "none", k |-> 0, kind |-> "zero", i |-> 0, j |-> 0,
               form |-> "plain", addr |-> ZeroAddr]
